@@ -75,7 +75,36 @@ def gen_plan(seed, tier):
   else:
     if r.random() < 0.3:
       desc["kind"] = "lowrank"
-  return dict(run_seed=seed, cls=cls, dataset=desc, params=params, fits=fits)
+  plan = dict(run_seed=seed, cls=cls, dataset=desc, params=params, fits=fits)
+  r2 = substream(seed, "c09-layout")
+  if cls == "RCA" and r2.random() < 0.5:
+    # chunklet ids are arbitrary non-negative integers: "chunks[i] == j: point i
+    # belongs to chunklet j" (one-based ids, gaps, any order)
+    plan["chunk_ids"] = r2.choice(["onebased", "gaps", "shuffled", "gaps_shuffled"])
+  if cls in ("Covariance", "RCA") and r2.random() < 0.3:
+    desc["global_scale"] = r2.choice([1e-8, 1e-6, 1e-3, 1e3, 1e6])     # units are arbitrary
+  elif cls == "LFDA" and r2.random() < 0.15:
+    desc["global_scale"] = r2.choice([1e-3, 1e3])
+  return plan
+
+
+def _relabel_chunks(chunks, how, seed):
+  """The same chunklets under other (legal) ids."""
+  if not how:
+    return chunks
+  ids = np.unique(chunks[chunks >= 0])
+  rs = np.random.RandomState(h64("chunk-ids", seed) & 0xFFFFFFFF)
+  new = np.arange(len(ids))
+  if how == "onebased":
+    new = new + 1
+  elif how in ("gaps", "gaps_shuffled"):
+    new = np.cumsum(rs.randint(1, 4, size=len(ids)))
+  if how in ("shuffled", "gaps_shuffled"):
+    new = rs.permutation(new)
+  out = chunks.copy()
+  for a, b in zip(ids, new):
+    out[chunks == a] = b
+  return out
 
 
 def run_plan(plan):
@@ -89,6 +118,11 @@ def run_plan(plan):
   D = make_data(plan["dataset"])
   X, y = D.X, D.y
   d = D.d
+  if cls == "RCA":
+    D.chunks = _relabel_chunks(D.chunks, plan.get("chunk_ids"), plan["run_seed"])
+    cov["rca_chunk_ids_" + str(plan.get("chunk_ids") or "contiguous")] += 1
+  if plan["dataset"].get("global_scale"):
+    cov["global_scale_%g" % plan["dataset"]["global_scale"]] += 1
   p = dict(plan["params"])
   shape = [cls, repr(sorted(p.items())), repr(plan["dataset"].get("class_sizes")),
            plan["dataset"]["kind"]]
@@ -250,8 +284,12 @@ def shrink_moves(plan, violation):
           if p["params"].get(kk):
             p["params"][kk] = min(p["params"][kk], p["dataset"]["d"] - (kk == "k"))  or None
       yield p
-  for key in ("scale",):
+  for key in ("scale", "global_scale"):
     if d.get(key):
       p = copy.deepcopy(plan)
       p["dataset"][key] = 0
       yield p
+  if plan.get("chunk_ids"):
+    p = copy.deepcopy(plan)
+    del p["chunk_ids"]
+    yield p
